@@ -746,6 +746,201 @@ fn surface_tables(out: &mut String) {
     write_if_changed(&format!("{}/sigs.json", dir), &format!("[\n{}\n]\n", json.join(",\n")));
 }
 
+
+// ---------- derive totality / hygiene / API (C13) ----------
+static LAST_PANIC: std::sync::Mutex<String> = std::sync::Mutex::new(String::new());
+fn all_generators(input: &input::Input) -> Vec<proc_macro2::TokenStream> {
+    vec![vec::derive(input), refs::derive(input), ptr::derive(input), slice::derive(input), slice::derive_mut(input),
+         index::derive(input), iter::derive(input), generic::derive_slice(input), generic::derive_slice_mut(input), generic::derive_vec(input)]
+}
+/// run the real Input::new and every generator on a declaration; Err(panic message) if the derive panics
+fn run_decl(src: &str) -> Result<Vec<syn::File>, String> {
+    let src = src.to_string();
+    LAST_PANIC.lock().unwrap().clear();
+    let r = std::panic::catch_unwind(move || {
+        let ast: syn::DeriveInput = syn::parse_str(&src).expect("declaration parses");
+        let input = input::Input::new(ast);
+        all_generators(&input).into_iter().map(|t| syn::parse2::<syn::File>(t).expect("generated code parses")).collect::<Vec<_>>()
+    });
+    r.map_err(|_| LAST_PANIC.lock().unwrap().clone())
+}
+fn diag_of(msg: &str) -> String {
+    if msg.contains("only supports struct with fields") { ".noFields".into() }
+    else if msg.contains("only supports struct") { ".notStruct".into() }
+    else if msg.contains("missing ident") || msg.contains("`Option::unwrap()` on a `None` value") { ".unnamedField".into() }
+    else if msg.contains("can not derive Copy") { ".copy".into() }
+    else if msg.contains("expected one of the SoA type") { ".badKind".into() }
+    else if msg.contains("expected attribute like") { ".badAttrShape".into() }
+    else if msg.contains("soa_derive") { ".badDeriveList".into() }
+    else { format!("(.other {})", lean_str(msg)) }
+}
+#[derive(Clone, PartialEq)]
+enum BName { Field(usize), Priv(String, usize), Fixed(String) }
+struct BinderWalk<'a> { fields: &'a [String], ev: Vec<(bool, BName)> }
+impl<'a> BinderWalk<'a> {
+    fn classify(&self, id: &str) -> BName {
+        if let Some(i) = self.fields.iter().position(|f| f == id) { return BName::Field(i); }
+        if id.starts_with("___soa_derive_private") {
+            if let Some(p) = id.rfind('_') { if let Ok(i) = id[p + 1..].parse::<usize>() { return BName::Priv(id[..p].to_string(), i); } }
+        }
+        BName::Fixed(id.to_string())
+    }
+    fn bind_pat(&mut self, p: &syn::Pat) {
+        match p {
+            syn::Pat::Ident(pi) => { let n = self.classify(&pi.ident.to_string()); self.ev.push((true, n)); if let Some((_, sub)) = &pi.subpat { self.bind_pat(sub); } }
+            syn::Pat::Tuple(t) => for e in &t.elems { self.bind_pat(e); },
+            syn::Pat::TupleStruct(t) => for e in &t.elems { self.bind_pat(e); },
+            syn::Pat::Struct(st) => for f in &st.fields { self.bind_pat(&f.pat); },
+            syn::Pat::Reference(r) => self.bind_pat(&r.pat),
+            syn::Pat::Type(t) => self.bind_pat(&t.pat),
+            syn::Pat::Paren(t) => self.bind_pat(&t.pat),
+            syn::Pat::Or(o) => for c in &o.cases { self.bind_pat(c); },
+            syn::Pat::Slice(sl) => for e in &sl.elems { self.bind_pat(e); },
+            _ => {}
+        }
+    }
+}
+impl<'a, 'ast> syn::visit::Visit<'ast> for BinderWalk<'a> {
+    fn visit_local(&mut self, l: &'ast syn::Local) {
+        // the initialiser is evaluated before the pattern binds
+        if let Some(init) = &l.init { self.visit_expr(&init.expr); if let Some((_, d)) = &init.diverge { self.visit_expr(d); } }
+        self.bind_pat(&l.pat);
+    }
+    fn visit_expr_closure(&mut self, c: &'ast syn::ExprClosure) {
+        for p in &c.inputs { self.bind_pat(p); }
+        self.visit_expr(&c.body);
+    }
+    fn visit_arm(&mut self, a: &'ast syn::Arm) { self.bind_pat(&a.pat); if let Some((_, g)) = &a.guard { self.visit_expr(g); } self.visit_expr(&a.body); }
+    fn visit_expr_for_loop(&mut self, f: &'ast syn::ExprForLoop) { self.visit_expr(&f.expr); self.bind_pat(&f.pat); self.visit_block(&f.body); }
+    fn visit_expr_let(&mut self, l: &'ast syn::ExprLet) { self.visit_expr(&l.expr); self.bind_pat(&l.pat); }
+    fn visit_expr_path(&mut self, p: &'ast syn::ExprPath) {
+        if p.qself.is_none() && p.path.segments.len() == 1 && p.path.leading_colon.is_none() {
+            let id = p.path.segments[0].ident.to_string();
+            if id != "self" && id != "Self" && id.chars().next().map(|c| c.is_lowercase() || c == '_').unwrap_or(false) {
+                let n = self.classify(&id); self.ev.push((false, n));
+            }
+        }
+    }
+    fn visit_field_value(&mut self, fv: &'ast syn::FieldValue) {
+        // `field: expr` — the member is not a variable; shorthand `field` is a use
+        if fv.colon_token.is_none() { if let syn::Member::Named(id) = &fv.member { let n = self.classify(&id.to_string()); self.ev.push((false, n)); } }
+        else { self.visit_expr(&fv.expr); }
+    }
+    fn visit_macro(&mut self, m: &'ast syn::Macro) {
+        // debug_assert!/assert!/format-like macros: identifiers used as arguments are uses
+        for t in m.tokens.clone() { if let proc_macro2::TokenTree::Ident(id) = t { let s = id.to_string();
+            if s != "self" && s.chars().next().map(|c| c.is_lowercase() || c == '_').unwrap_or(false) { let n = self.classify(&s); if !matches!(n, BName::Fixed(_)) { self.ev.push((false, n)); } } } }
+    }
+}
+fn lean_bname(n: &BName) -> String {
+    match n { BName::Field(i) => format!("(.field {})", i), BName::Priv(f, i) => format!("(.priv {} {})", lean_str(f), i), BName::Fixed(s) => format!("(.fixed {})", lean_str(s)) }
+}
+fn shape_tables(out: &mut String) {
+    use std::fmt::Write;
+    use syn::visit::Visit;
+    let hook = std::panic::take_hook();
+    std::panic::set_hook(Box::new(|info| {
+        let msg = if let Some(s) = info.payload().downcast_ref::<&str>() { s.to_string() } else if let Some(s) = info.payload().downcast_ref::<String>() { s.clone() } else { "?".into() };
+        *LAST_PANIC.lock().unwrap() = msg;
+    }));
+    // --- acceptance corpus: (Lean declaration, source)
+    let mut decls: Vec<(String, String)> = vec![];
+    let fields = |n: usize| (0..n).map(|i| format!("pub f{}: T{}", i, i)).collect::<Vec<_>>().join(", ");
+    for n in [1usize, 2, 3, 7, 12, 40] { decls.push((format!("⟨.namedStruct, {}, []⟩", n), format!("pub struct P {{ {} }}", fields(n)))); }
+    decls.push(("⟨.namedStruct, 2, []⟩".into(), "struct P { a: A, pub(crate) b: B }".into()));
+    decls.push(("⟨.namedStruct, 2, []⟩".into(), "pub(crate) struct P { #[nested_soa] pub a: A, pub r#type: B }".into()));
+    decls.push(("⟨.namedStruct, 0, []⟩".into(), "pub struct P {}".into()));
+    decls.push(("⟨.unitStruct, 0, []⟩".into(), "pub struct P;".into()));
+    for n in [1usize, 2, 5] { decls.push((format!("⟨.tupleStruct, {}, []⟩", n), format!("pub struct P({});", (0..n).map(|i| format!("pub T{}", i)).collect::<Vec<_>>().join(", ")))); }
+    decls.push(("⟨.tupleStruct, 0, []⟩".into(), "pub struct P();".into()));
+    decls.push(("⟨.enum_, 2, []⟩".into(), "pub enum P { A, B }".into()));
+    decls.push(("⟨.enum_, 1, []⟩".into(), "pub enum P { A { x: u32 } }".into()));
+    decls.push(("⟨.enum_, 0, []⟩".into(), "pub enum P {}".into()));
+    decls.push(("⟨.union_, 2, []⟩".into(), "pub union P { a: u32, b: f32 }".into()));
+    for (ts_, lean) in [("Copy", "[.Copy]"), ("Clone, Copy", "[.Clone, .Copy]"), ("Copy, Debug", "[.Copy, .Debug]"), ("Debug, Clone", "[.Debug, .Clone]"), ("Default", "[.Default]"), ("", "[]")] {
+        decls.push((format!("⟨.namedStruct, 2, [.traits {}]⟩", lean), format!("#[soa_derive({})] pub struct P {{ pub a: A, pub b: B }}", ts_)));
+        decls.push((format!("⟨.tupleStruct, 2, [.traits {}]⟩", lean), format!("#[soa_derive({})] pub struct P(A, B);", ts_)));
+        decls.push((format!("⟨.enum_, 2, [.traits {}]⟩", lean), format!("#[soa_derive({})] pub enum P {{ A, B }}", ts_)));
+        decls.push((format!("⟨.unitStruct, 0, [.traits {}]⟩", lean), format!("#[soa_derive({})] pub struct P;", ts_)));
+    }
+    for (a, lean) in [("Vec, derive(Debug)", ".okKind"), ("PtrMut, derive(Debug)", ".okKind"), ("Bogus, derive(Debug)", ".badKind"), ("Vec", ".badShape"),
+                      ("Vec, derive(Debug), derive(Clone)", ".badShape"), ("foo::Vec, derive(Debug)", ".badKind")] {
+        decls.push((format!("⟨.namedStruct, 1, [.attr {}]⟩", lean), format!("#[soa_attr({})] pub struct P {{ pub a: A }}", a)));
+        decls.push((format!("⟨.unitStruct, 0, [.attr {}]⟩", lean), format!("#[soa_attr({})] pub struct P;", a)));
+        decls.push((format!("⟨.tupleStruct, 1, [.attr {}]⟩", lean), format!("#[soa_attr({})] pub struct P(A);", a)));
+    }
+    decls.push(("⟨.namedStruct, 1, [.traits [.Copy], .attr .badKind]⟩".into(), "#[soa_derive(Copy)] #[soa_attr(Bogus, derive(Debug))] pub struct P { pub a: A }".into()));
+    decls.push(("⟨.namedStruct, 1, [.attr .badKind, .traits [.Copy]]⟩".into(), "#[soa_attr(Bogus, derive(Debug))] #[soa_derive(Copy)] pub struct P { pub a: A }".into()));
+    decls.push(("⟨.namedStruct, 1, [.attr .okKind, .traits [.Debug], .attr .badShape, .traits [.Copy]]⟩".into(), "#[soa_attr(Ref, derive(Debug))] #[soa_derive(Debug)] #[soa_attr(Ref)] #[soa_derive(Copy)] pub struct P { pub a: A }".into()));
+    decls.push(("⟨.namedStruct, 3, [.traits [.Debug], .traits [.Clone, .PartialEq], .attr .okKind]⟩".into(), "#[soa_derive(Debug)] #[soa_derive(Clone, PartialEq)] #[soa_attr(Vec, derive(Hash))] pub struct P { pub a: A, #[nested_soa] pub b: B, c: C }".into()));
+    let rows: Vec<String> = decls.iter().map(|(lean, src)| {
+        let r = run_decl(src);
+        format!("  ({}, {})", lean, match r { Ok(_) => "none".to_string(), Err(m) => format!("some {}", diag_of(&m)) })
+    }).collect();
+    // --- binder events per generated function (schematic struct, with the Clone API)
+    let fnames: Vec<String> = vec!["fld_zero".into(), "fld_one".into(), "fld_two".into()];
+    let files = run_decl("#[soa_derive(Clone)] pub struct P { pub fld_zero: A, #[nested_soa] pub fld_one: N, pub fld_two: C }").expect("schematic struct is accepted");
+    let mut fn_rows: Vec<String> = vec![];
+    let mut locals: std::collections::BTreeSet<String> = Default::default();
+    let mut api: Vec<(String, String, String)> = vec![];
+    for file in &files {
+        for item in &file.items {
+            if let Item::Impl(im) = item {
+                let owner = ts(&im.self_ty);
+                let tr = im.trait_.as_ref().map(|(_, p, _)| ts(p)).unwrap_or_default();
+                for ii in &im.items {
+                    if let ImplItem::Fn(f) = ii {
+                        api.push((owner.clone(), tr.clone(), f.sig.ident.to_string()));
+                        let mut w = BinderWalk { fields: &fnames, ev: vec![] };
+                        for a in &f.sig.inputs { if let syn::FnArg::Typed(pt) = a { w.bind_pat(&pt.pat); } }
+                        w.visit_block(&f.block);
+                        let uses_field_binder = w.ev.iter().any(|(b, n)| *b && !matches!(n, BName::Fixed(_)));
+                        for (_, n) in &w.ev { if let BName::Fixed(s) = n { locals.insert(s.clone()); } }
+                        if uses_field_binder {
+                            let evs: Vec<String> = w.ev.iter().map(|(b, n)| format!("{} {}", if *b { ".bind" } else { ".use" }, lean_bname(n))).collect();
+                            fn_rows.push(format!("  ({}, [{}])", lean_str(&format!("{}{}::{}", owner, if tr.is_empty() { String::new() } else { format!("<{}>", tr) }, f.sig.ident)), evs.join(", ")));
+                        }
+                    }
+                }
+            }
+        }
+    }
+    let files_nc = run_decl("pub struct P { pub a: A, #[nested_soa] pub n: N, pub c: C }").expect("schematic struct is accepted");
+    let mut api_nc: Vec<(String, String, String)> = vec![];
+    for file in &files_nc { for item in &file.items { if let Item::Impl(im) = item {
+        let owner = ts(&im.self_ty); let tr = im.trait_.as_ref().map(|(_, p, _)| ts(p)).unwrap_or_default();
+        for ii in &im.items { if let ImplItem::Fn(f) = ii { api_nc.push((owner.clone(), tr.clone(), f.sig.ident.to_string())); } } } } }
+    std::panic::set_hook(hook);
+    // --- how the generator builds its private binder names (syntactic, from the generator sources)
+    let mut priv_spans: Vec<String> = vec![];
+    for file in ["refs.rs", "slice.rs", "vec.rs", "ptr.rs", "iter.rs", "index.rs", "generic.rs"] {
+        let src = std::fs::read_to_string(format!("/repo/soa-derive-internal/src/{}", file)).expect("generator source");
+        let mut rest = src.as_str();
+        while let Some(p) = rest.find("\"___soa_derive_private") {
+            let tail = &rest[p + 1..];
+            let fmt: String = tail.chars().take_while(|c| *c != '"').collect();
+            let after = &tail[fmt.len()..];
+            let span = if let Some(q) = after.find("Span::") { after[q + 6..].chars().take_while(|c| c.is_alphanumeric() || *c == '_').collect::<String>() } else { "?".into() };
+            priv_spans.push(format!("({}, {}, {})", lean_str(file), lean_str(fmt.trim_end_matches("_{}")), lean_str(&span)));
+            rest = &tail[fmt.len()..];
+        }
+    }
+    writeln!(out, "import Soa.Model.Accept\n-- generated by /verif/extract: the real Input::new and generators of /repo run on a corpus of declarations; binder events, API lists; do not edit").unwrap();
+    writeln!(out, "namespace Soa.Extracted\nopen Soa.Accept\n").unwrap();
+    writeln!(out, "/-- declaration ↦ `none` (code is generated) or the diagnostic the derive panics with -/").unwrap();
+    writeln!(out, "def acceptTable : List (Decl × Option Diag) := [\n{}]\n", rows.join(",\n")).unwrap();
+    writeln!(out, "/-- every generated function that binds a field-named or generator-private local: its binder / use events in evaluation order -/").unwrap();
+    writeln!(out, "def binderFns : List (String × List Ev) := [\n{}]\n", fn_rows.join(",\n")).unwrap();
+    writeln!(out, "/-- every fixed (generator-chosen, call-site) local identifier of the generated code: the name pool of the hygiene probes -/").unwrap();
+    writeln!(out, "def localIdents : List String := [{}]\n", locals.iter().map(|s| lean_str(s)).collect::<Vec<_>>().join(", ")).unwrap();
+    writeln!(out, "/-- (generator file, private binder family, span constructor) -/").unwrap();
+    writeln!(out, "def privateSpans : List (String × String × String) := [{}]\n", priv_spans.join(", ")).unwrap();
+    let fmt_api = |v: &Vec<(String, String, String)>| v.iter().map(|(o, t, n)| format!("({}, {}, {})", lean_str(o), lean_str(t), lean_str(n))).collect::<Vec<_>>().join(",\n  ");
+    writeln!(out, "/-- (owner, trait, function) of the generated API with `#[soa_derive(Clone)]` / without -/").unwrap();
+    writeln!(out, "def apiClone : List (String × String × String) := [\n  {}]\n", fmt_api(&api)).unwrap();
+    writeln!(out, "def apiNoClone : List (String × String × String) := [\n  {}]\n\nend Soa.Extracted", fmt_api(&api_nc)).unwrap();
+}
+
 /// write only when the content changed, so that `lake build` re-checks nothing on an unchanged tree
 fn write_if_changed(path: &str, content: &str) {
     if std::fs::read_to_string(path).map(|old| old == content).unwrap_or(false) { return; }
@@ -775,4 +970,7 @@ fn main() {
     let mut f = String::new();
     surface_tables(&mut f);
     write_if_changed(&format!("{}/Surface.lean", outdir), &f);
+    let mut h = String::new();
+    shape_tables(&mut h);
+    write_if_changed(&format!("{}/Shape.lean", outdir), &h);
 }
